@@ -8,7 +8,7 @@
   single-pass (`CodeGenerator::execute`, code_generator:202) or as a self fix-point
   (`execute_recursive_fixpoint_tuples`, code_generator:314), results accumulated and *overriding*
   same-named inputs (`load_inputs_into_codegen`, lib.rs:1112)  →  the answer is the result of the
-  last executed head.  `max_result_rows` truncates every head (code_generator:258-266, 1203-1211);
+  last executed head.  `max_result_rows` truncates the last executed head (code_generator:258-266, 1203-1211);
   `num_workers > 1` hash-partitions all inputs of a non-recursive head without join/antijoin
   (`execute_with_config`, code_generator:1261-1316).
 
@@ -32,13 +32,15 @@ structure Cfg where
 
 /-! ### one clause, as `IRBuilder::build_ir` + `Optimizer::optimize` evaluate it
 
-  Two deviations from the declarative reading are part of the model because the code has them:
+  Deviations from the declarative reading that are part of the model because the code has them:
 
-  * **wildcard column names** (ir_builder:298): a `_` in position `i` of an atom over `rel` gets the
-    schema name `_ph_<rel>_<i>`; two positive atoms of one rule over the same relation with a
-    wildcard in the same position therefore *share a column name* and `build_join` joins on it.
-    Modelled by renaming such wildcards into variables of that name.
-  * **filter push-down into the right side of a join** (optimizer:337-404, always on, applied to
+  * (repaired, fixes/C01-same_relation_wildcard_position.diff) wildcard columns are named
+    `_ph_a<atom>_<rel>_<i>` (ir_builder:298): unique per atom, so a wildcard is an anonymous variable.
+  * (repaired, fixes/C05-pushdown_right_past_join_key.diff of the `ir` branch: the pushed filter is
+    re-indexed through the right side's key positions, so push-down no longer changes the meaning
+    of a clause and is not part of the model any more; `pushPlan` below describes the *unrepaired*
+    optimizer and is kept only for the class predicate `Drv.C01.pushdownShift`, still referenced by
+    Drv/C06.) Formerly: **filter push-down into the right side of a join** (optimizer:337-404,
     non-recursive heads only because recursive heads run the unoptimized tree, lib.rs:1667):
     when every column of the (fused) comparison filters lies in the part of the join output
     contributed by the right scan, the filter is moved onto the right scan with its column
@@ -46,20 +48,6 @@ structure Cfg where
     join output*, so index `j` of the output part is the `j`-th **non-key** column of the scan,
     not column `j`. The filter then tests the wrong column.
 -/
-
-def phName (rel : String) (i : Nat) : String := "_ph_" ++ rel ++ "_" ++ toString i
-
-def renameWild (rel : String) : Nat → List Term → List Term
-  | _, [] => []
-  | i, .wild :: ts => .var (phName rel i) :: renameWild rel (i + 1) ts
-  | i, t :: ts => t :: renameWild rel (i + 1) ts
-
-/-- positive atoms with wildcards given their schema names. -/
-def quirkLit : Lit → Lit
-  | .pos a => .pos { a with args := renameWild a.rel 0 a.args }
-  | l => l
-
-def quirkWild (r : Rule) : Rule := { r with body := r.body.map quirkLit }
 
 /-- schema names of a scan (`build_scan`): variables keep their name, a constant in body
     position `bi`, column `i` is `_const_a<bi>_c<i>` (unique). -/
@@ -167,19 +155,14 @@ def withFilters (atoms : List Atom) (plan : Option (Nat × List (String × Nat))
 
 /-- the bag of body valuations as the engine computes it. `optimized`: the tree went through
     `Optimizer::optimize` (non-recursive heads). -/
-def bodyEnvsM (optimized : Bool) (lk : String → List Tuple) (r0 : Rule) : Option (List Env) :=
-  let r := quirkWild r0
+def bodyEnvsM (_optimized : Bool) (lk : String → List Tuple) (r : Rule) : Option (List Env) :=
   match buildCmps r.posVars r.cmps with
   | none => none
   | some (cols, fs) =>
     if cols.any (fun xe => exprHasDivMod xe.2) then none else
-    let plan := if optimized && cols.isEmpty then pushPlan r fs else none
-    let envs := evalPosF lk (withFilters r.posAtoms plan fs) [[]]
-    match optMapM (applyCols cols) envs with
+    match optMapM (applyCols cols) (evalPos lk r.posAtoms [[]]) with
     | none => none
-    | some envs =>
-      let envs := if plan.isSome then envs else envs.filter (fun env => fs.all (Cmp.holds env))
-      some (evalNegs lk r.negAtoms envs)
+    | some envs => some (evalNegs lk r.negAtoms (envs.filter (fun env => fs.all (Cmp.holds env))))
 
 def evalRuleM (optimized : Bool) (lk : String → List Tuple) (r : Rule) : Option (List Tuple) :=
   match bodyEnvsM optimized lk r with
@@ -279,8 +262,9 @@ def partLk (hash : Tuple → Nat) (n w : Nat) (lk : String → List Tuple) : Str
   fun r => (lk r).filter (fun t => hash t % n == w)
 
 /-- `contains_join` (code_generator:1319) on the tree of a head: a `Join` for every second scan of
-    a clause, an `Antijoin` for every negated atom. -/
-def parSafe (cs : List Rule) : Bool := cs.all (fun r => r.posAtoms.length ≤ 1 && r.negAtoms.isEmpty)
+    a clause, an `Antijoin` for every negated atom, and (repaired,
+    fixes/C03-aggregate_under_partitioning.diff) an `Aggregate` all make the head single-worker. -/
+def parSafe (cs : List Rule) : Bool := cs.all (fun r => r.posAtoms.length ≤ 1 && r.negAtoms.isEmpty && !r.hasAgg)
 
 def unionAll : List (List Tuple) → List Tuple
   | [] => []
@@ -290,8 +274,12 @@ def evalHead (cfg : Cfg) (hash : Tuple → Nat) (fuel : Nat) (p : Program) (lk :
   let cs := clausesOf p h
   if selfRec p h then lfpSelf fuel lk h cs
   else if cfg.workers > 1 && parSafe cs then
-    -- a worker whose run fails contributes nothing (`unwrap_or_default`, code_generator:1305)
-    some (unionAll ((List.range cfg.workers).map (fun w => (evalRulesM true (partLk hash cfg.workers w lk) cs).getD [])))
+    -- a worker whose run fails contributes nothing (`unwrap_or_default`, code_generator:1305).
+    -- The merged `HashSet` has no specified order; the model lists it in the order of the
+    -- whole-relation evaluation (members = exactly the union of the partition results).
+    let parts := unionAll ((List.range cfg.workers).map (fun w => (evalRulesM true (partLk hash cfg.workers w lk) cs).getD []))
+    let whole := (evalRulesM true lk cs).getD []
+    some (whole.filter parts.contains ++ parts.filter (fun t => !whole.contains t))
   else evalRulesM true lk cs
 
 /-- does the row limit apply to this head's execution? (not on the partitioned path: the
@@ -306,7 +294,9 @@ def execLoop (cfg : Cfg) (hash : Tuple → Nat) (ord : String → List Tuple →
     match evalHead cfg hash fuel p (lkOf edb acc) h with
     | none => .err "err:fragment"
     | some ts =>
-      let ts := if limited cfg p h then (ord h ts).take cfg.limit else ts
+      -- (repaired, fixes/C08-limit_truncates_intermediate_head.diff) `max_result_rows` is set on
+      -- the generator of the last executed head only (lib.rs:1652)
+      let ts := if hs.isEmpty && limited cfg p h then (ord h ts).take cfg.limit else ts
       execLoop cfg hash ord fuel p edb hs ((h, ts) :: acc) ts
 
 def run (cfg : Cfg) (hash : Tuple → Nat) (ord : String → List Tuple → List Tuple) (fuel : Nat) (p : Program) (edb : DB) : Outcome :=
